@@ -34,7 +34,7 @@ ASSUMPTIONS = [
     'report text is compared verbatim with str() of the library result under the same report/ascii settings',
 ]
 REQUIRED_MONITORS = ['cli:discover', 'cli:verify', 'cli:detect', 'cli:bad_invocation', 'closure:cli', 'runs:real_crosscheck',
-                     'fs:leftovers_checked', 'cli:stdin_input', 'cli:stdout_output', 'session:command_compared']
+                     'fs:leftovers_checked', 'cli:stdin_input', 'cli:stdout_output', 'session:command_compared', 'detect:row_numbers_checked', 'cli:verify_implicit_constraints']
 REQUIRED_CLASSES = ['fmt=csv', 'fmt=parquet', 'bad=missing-input', 'bad=missing-constraints', 'bad=unknown-flag',
                     'bad=contradictory']
 KINDS = ['int64', 'float64', 'bool', 'dt_s', 'dt_ns', 'str_obj', 'Int64']
@@ -108,7 +108,7 @@ def run_file(ctx, spec, idx):
     d = os.path.join(ctx.scratch, 'c17')
     shutil.rmtree(d, ignore_errors=True)
     os.makedirs(d)
-    data = 'data.' + spec['fmt']
+    data = rng.choice(['data', 'data', 'accounts.2024', 'my data.v2', 'dätä', 'a.b.c']) + '.' + spec['fmt']
     dpath = os.path.join(d, data)
     try:
         write_file(spec, dpath)
@@ -209,6 +209,35 @@ def run_file(ctx, spec, idx):
         rec.violation('cli_failed', {'case': case, 'mech': {'cmd': 'verify-closure', 'status': res.status}, 'facts': {'stderr': res.err[-500:]}})
     elif int(m.group(2)) != 0:
         rec.violation('file_fails_its_own_constraints', {'case': case, 'mech': {'fmt': spec['fmt']}, 'facts': {'stdout': res.out[-600:]}})
+    # ---------------- verify with the constraints file left out: <input name minus its extension>.tdda ---------------
+    stem = os.path.splitext(data)[0]
+    if rng.random() < 0.5:
+        shutil.copy(cpath, os.path.join(d, stem + '.tdda'))
+        first = stem.split('.')[0]
+        if first != stem:
+            # a sibling named after the part before the FIRST dot holds constraints that this data fails
+            with open(os.path.join(d, first + '.tdda'), 'w') as f:
+                json.dump({'fields': {spec['cols'][0]['name']: {'type': 'date', 'max_nulls': 0, 'max_length': 0, 'min': 10 ** 9}}}, f)
+        args = ['verify', data]
+        case = case_of(args, 'verify-implicit')
+        res = run_cli(ctx, args, d)
+        rec.event('cli:verify_implicit_constraints')
+        try:
+            buf = io.StringIO()
+            with contextlib.redirect_stdout(buf), contextlib.redirect_stderr(io.StringIO()):
+                v = verify_df(load_df(dpath), os.path.join(d, stem + '.tdda'), report='all')
+            want_out = buf.getvalue() + str(v) + '\n'
+            if res.status != 0:
+                rec.violation('cli_failed', {'case': case, 'mech': {'cmd': 'verify-implicit', 'status': res.status, 'dots': stem.count('.')},
+                                             'facts': {'stderr': res.err[-500:]}})
+            elif res.out != want_out:
+                rec.violation('verify_report_differs', {'case': case, 'mech': {'cmd': 'verify-implicit', 'dots': stem.count('.')},
+                                                        'facts': {'cli': res.out[-600:], 'library': want_out[-600:]}})
+        except Exception:
+            pass
+        for fn in (stem + '.tdda', first + '.tdda'):
+            if fn != cons_name and os.path.exists(os.path.join(d, fn)):
+                os.unlink(os.path.join(d, fn))
     # ---------------- perturbed constraints so that something fails ------------------
     cons = json.loads(open(cpath).read())
     pert = json.loads(json.dumps(cons))
@@ -372,6 +401,23 @@ def run_file(ctx, spec, idx):
                     rec.violation('detect_output_differs', {'case': case, 'mech': mech,
                                                             'facts': {'cli': open(cp, 'rb').read()[:400].decode('utf-8', 'replace'),
                                                                       'library': open(lp, 'rb').read()[:400].decode('utf-8', 'replace')}})
+            # independent of how either side numbers its output: a row-number column of the command's output file
+            # "refers to row numbers from the file" (1-based), i.e. to the positions of the records detected
+            if os.path.exists(cp):
+                try:
+                    import pandas as pd
+                    outdf = pd.read_csv(cp, keep_default_na=False, dtype=str) if ofmt == 'csv' else pd.read_parquet(cp)
+                    det = v.detected()
+                    if 'RowNumber' in outdf.columns and det is not None and 'RowNumber' not in [c['name'] for c in spec['cols']]:
+                        rec.event('detect:row_numbers_checked')
+                        got_rn = [int(x) for x in outdf['RowNumber']]
+                        want_rn = [int(i) + 1 for i in det.index]
+                        if got_rn != want_rn:
+                            rec.violation('row_numbers_do_not_refer_to_the_input_rows',
+                                          {'case': case, 'mech': dict(mech, write_all=bool(kw.get('write_all'))),
+                                           'facts': {'RowNumber': got_rn[:12], 'failing_input_rows': want_rn[:12]}})
+                except (ValueError, KeyError, OSError):
+                    pass
             if res.out != lib_stdout + str(v) + '\n':
                 rec.violation('detect_report_differs', {'case': case, 'mech': mech, 'facts': {'cli': res.out[-400:], 'library': str(v)[-400:]}})
         crosscheck(args, res, stdin=open(dpath, 'rb').read() if d_stdin else None, files=[outname] if ofmt != 'dash' else [])
